@@ -206,7 +206,9 @@ impl Arb for malapp::Answer {
 impl Arb for malapp::Tick { fn arb(r: &mut Rng) -> Self { malapp::Tick { seq: u64x(r), label: Arb::arb(r) } } }
 impl Arb for malapp::MalEvent {
     fn arb(r: &mut Rng) -> Self {
-        match r.below(6) {
+        match r.below(9) {
+            6 | 7 => malapp::MalEvent::Chain { tag: Arb::arb(r) },
+            8 => malapp::MalEvent::Fork { tag: Arb::arb(r) },
             0 | 1 => malapp::MalEvent::Ask { tag: Arb::arb(r), text: Arb::arb(r) },
             2 => malapp::MalEvent::Watch { tag: Arb::arb(r) },
             3 | 4 => malapp::MalEvent::Note { text: Arb::arb(r), blob: Blob::arb(r).0, nums: Arb::arb(r), flag: Arb::arb(r) },
